@@ -569,7 +569,7 @@ pub fn on_client_message(sim: &mut Sim, c: usize, ch: usize, bytes: &[u8]) {
                     let wire_ent = match k {
                         CEv::Map => m.ent,
                         CEv::Trig => m.targets.first().copied(),
-                        CEv::Ord => None,
+                        CEv::Ord | CEv::Unord | CEv::Unrel => None,
                     };
                     if let Some(local) = e.ent {
                         let expect = map.iter().find(|(c, _)| *c == local).map(|(_, s)| *s);
@@ -1354,7 +1354,7 @@ pub fn end_of_run(sim: &mut Sim) {
             v.push(("C05", "client_event_from_nowhere", format!("server observed client event seq {} that was never put on the wire", e.seq)));
         }
         let sess_up = sim.clients[e.client].sess.as_ref().map(|s| s.up() && Some(s.id) == e.session).unwrap_or(false);
-        if e.on_wire > 0 && sess_up && running && !e.lost_in_flight && e.seen.is_empty() && (e.kind != CEv::Map && e.kind != CEv::Trig || e.expected_server_ent.is_some() || e.ent.is_none()) {
+        if e.on_wire > 0 && sess_up && running && !e.lost_in_flight && e.kind != CEv::Unrel && e.seen.is_empty() && (e.kind != CEv::Map && e.kind != CEv::Trig || e.expected_server_ent.is_some() || e.ent.is_none()) {
             v.push(("C05", "client_event_lost", format!("client event {:?} seq {} was sent by client {} but never observed by the server", e.kind, e.seq, e.client)));
         }
         if e.eligible && e.client_frame_after && sess_up && e.on_wire == 0 && e.ent.is_none() {
